@@ -19,7 +19,7 @@ def _write(path: Union[str, Path], content: str) -> None:
     if not os.path.exists(os.path.dirname(Path(path).absolute())):
         os.makedirs(os.path.dirname(path), exist_ok=True)
 
-    with open(path, 'w+') as f:
+    with open(path, 'w+', encoding='utf-8') as f:
         f.write(content)
 
 
